@@ -181,7 +181,14 @@ where
     T: CBOREncodable,
 {
     fn into_envelope(self) -> Envelope {
-        Envelope::new(CBOR::from(self))
+        // A `HashSet` has no inherent order and its iteration order differs
+        // from instance to instance, so encode it as a dCBOR `Set` (elements
+        // in canonical order): equal sets must yield equal envelopes.
+        let mut set = Set::new();
+        for item in self {
+            set.insert(item.to_cbor());
+        }
+        Envelope::new(CBOR::from(set))
     }
 }
 
